@@ -1,3 +1,4 @@
+pub mod trunc { use vstd::prelude::*;
 // Truncating (Rust) division on mathematical integers.  The definition mirrors Verus' own encoding of the
 // machine `/` and `%` (ite on the sign of the dividend over Euclidean division), so that `d == trunc_div(a, b)`
 // holds by definition for `let d = a / b` in executable code; lemma_trunc then gives the *mathematical*
@@ -101,3 +102,5 @@ pub proof fn lemma_floor_unique(a: int, b: int, q1: int, q2: int)
         assert((q2 + 1) * b >= q1 * b || b > 0) by(nonlinear_arith) requires q2 + 1 <= q1;
     }
 }
+}
+pub use trunc::*;
